@@ -591,6 +591,7 @@ type witness struct {
 	Returned    [][]string   `json:"returned,omitempty"`
 	Permitted   [][]string   `json:"permitted,omitempty"`
 	Detail      string       `json:"detail,omitempty"`
+	History     *pki.History `json:"history,omitempty"`
 }
 
 var channelSizes = []int{0, -1, 1, 2, 4, 16}
@@ -678,7 +679,7 @@ func (r *runner) one(u *pki.Universe, b *pki.Built, m *model, st startT, reverse
 	want := m.paths(a, r.maxLen)
 	c.Evaluations.Add(1)
 	mkW := func() witness {
-		return witness{Spec: s, Reverse: reverse, AllPairs: allPairs, Start: st.desc, StartKind: startKindNames[st.kind], Graph: s.Describe()}
+		return witness{Spec: s, Reverse: reverse, AllPairs: allPairs, Start: st.desc, StartKind: startKindNames[st.kind], Graph: s.Describe(), History: b.History}
 	}
 	full := func(w *witness, got [][]string) {
 		for _, g := range got {
@@ -846,6 +847,61 @@ func (r *runner) graph(u *pki.Universe, s *pki.Spec, reverse, allPairs bool, h e
 	}
 }
 
+// growth walks ONE graph object while it grows: after every insertion (and before the first) every start
+// certificate — certificates already in the graph, certificates of the specification that are not in yet,
+// siblings, fresh leaves under every node, a leaf of an unknown issuer — is walked (synchronously and with every
+// channel size) and compared with the oracle for the edges inserted so far. Earlier walks on the same object
+// precede every later state, so anything a walk leaves behind in the graph (memoised start edges, signature
+// flags, adjacency fix-ups done lazily) that is not invalidated by a later AddCert/AddRoot shows up as a
+// difference from the oracle, which only knows the specification.
+func (r *runner) growth(u *pki.Universe, s *pki.Spec, reverse bool, h ev.Hist) {
+	c := r.c
+	g := verifier.NewGraph()
+	n := len(s.Edges)
+	in := make([]bool, n)
+	for step := 0; step <= n; step++ {
+		if step > 0 {
+			i := step - 1
+			if reverse {
+				i = n - step
+			}
+			in[i] = true
+			x := u.Cert(s.Desc(s.Edges[i])).X
+			if s.Edges[i].Root {
+				g.AddRoot(x)
+			} else {
+				g.AddCert(x)
+			}
+			c.Transitions.Add(1)
+		}
+		ps := &pki.Spec{Name: fmt.Sprintf("%s [growth history: %d of %d certificates inserted]", s.Name, step, n), Nodes: s.Nodes}
+		for i, e := range s.Edges {
+			if in[i] {
+				ps.Edges = append(ps.Edges, e)
+			}
+		}
+		ref := u.Build(ps, false) // mints/looks up the certificates; its own graph is only used for the sanity check below
+		if diff := ref.CheckDump(); diff != "" {
+			c.Broken("the graph built from %q is not the specified graph (C10's subject, not C11's): %s", ps.Name, diff)
+		}
+		hb := *ref
+		hb.G = g
+		hb.History = &pki.History{Full: s, Step: step, Reverse: reverse}
+		if diff := hb.CheckDump(); diff != "" {
+			c.Broken("growth history: after %d insertions and the walks in between the graph is not the specified graph (C10's subject, not C11's): %s", step, diff)
+		}
+		m := newModel(&hb)
+		c.States.Add(1)
+		for _, st := range startsOf(ps, true) {
+			r.one(u, &hb, m, st, reverse, true, h, true)
+		}
+		if r.hung.Load() {
+			return
+		}
+	}
+	h["growth histories: graph states walked in place"] += int64(n + 1)
+}
+
 func main() {
 	for i, a := range os.Args {
 		if a == "-worker" && i+1 < len(os.Args) {
@@ -870,12 +926,17 @@ func main() {
 				c.Broken("bad witness: %v", err)
 			}
 			h := ev.Hist{}
+			if w.History != nil && w.History.Full != nil {
+				r.growth(pki.NewUniverse(), w.History.Full, w.History.Reverse, h)
+				c.Merge(h)
+				return
+			}
 			r.graph(pki.NewUniverse(), w.Spec, w.Reverse, w.AllPairs, h, &w.Start)
 			c.Merge(h)
 			return
 		}
 
-		c.Rule("graph specifications = (i) one representative per isomorphism class of all digraphs on 1..3 (subject,key) nodes: every subset of the n*n issuer->child certificates x root flag (quick: on self-signed certificates; thorough: on any certificate) x per-node CA flag x pathLenConstraint in {0,1} on at most one CA node [quick also: 3 nodes, root flag on any certificate, all CA, no path length; thorough also: 4 nodes, at most one non-CA node, no path length, roots self-signed]; (ii) hand-listed families on up to 18 nodes (straight chains of 1..12 certificates, path-length limits at and beside their boundary, cross-signed ladders with 2^k paths k in {1,2,3,6,7,8}, cycles of length 2..4 with 0/1/2 exits to a root or with a cycle edge in the root store, two roots, parallel certificates, roots that are also cross-signed, mutual cross-signs, key rollover (one subject, two keys), non-CA intermediates, dangling issuers); every graph is built with AddCert/AddRoot (alternately in specification and in reverse order) and asserted equal to its specification through VerifDump. Start certificates per graph = every certificate of the graph + for every connected node pair a sibling certificate that is not in the graph + (part i) a certificate for every unconnected ordered node pair + a fresh leaf under every node + a leaf with an unknown issuer. Per (graph,start): WalkChains and WalkChainsAsync with ChannelSize in {0,-1,1,2,4,16}. distinct = (graph,start) cases with at least one permitted chain")
+		c.Rule("graph specifications = (i) one representative per isomorphism class of all digraphs on 1..3 (subject,key) nodes: every subset of the n*n issuer->child certificates x root flag (quick: on self-signed certificates; thorough: on any certificate) x per-node CA flag x pathLenConstraint in {0,1} on at most one CA node [quick also: 3 nodes, root flag on any certificate, all CA, no path length; thorough also: 4 nodes, at most one non-CA node, no path length, roots self-signed]; (ii) hand-listed families on up to 18 nodes (straight chains of 1..12 certificates, path-length limits at and beside their boundary, cross-signed ladders with 2^k paths k in {1,2,3,6,7,8}, cycles of length 2..4 with 0/1/2 exits to a root or with a cycle edge in the root store, two roots, parallel certificates, roots that are also cross-signed, mutual cross-signs, key rollover (one subject, two keys), non-CA intermediates, dangling issuers); every graph is built with AddCert/AddRoot (alternately in specification and in reverse order) and asserted equal to its specification through VerifDump. Start certificates per graph = every certificate of the graph + for every connected node pair a sibling certificate that is not in the graph + (part i) a certificate for every unconnected ordered node pair + a fresh leaf under every node + a leaf with an unknown issuer. Per (graph,start): WalkChains and WalkChainsAsync with ChannelSize in {0,-1,1,2,4,16}. (iii) growth histories: every 1-/2-node class, the small families and every family of <= 8 certificates is also grown certificate by certificate (both orders) on ONE graph object, with all starts (incl. certificates not inserted yet) walked after every insertion and compared with the oracle of the edges inserted so far. distinct = (graph,start) cases with at least one permitted chain")
 		c.Assume("oracle = depth-first enumeration over the SPECIFICATION (never over Graph internals) transcribing the statement; compared with the walk as multisets of SHA-256(DER) sequences",
 			"a root certificate's own pathLenConstraint: the statement constrains only the certificates before the root, so chains through a root whose own limit is exceeded are accepted whether returned or not (counted as 'either')",
 			"maximum length = value of verifier.maxIntermediateCount read through an in-package constant, applied to the number of certificates of the chain (see note_on_maximum)",
@@ -921,6 +982,33 @@ func main() {
 		})
 		if !done {
 			c.Incomplete(fmt.Sprintf("budget hit: only part of the %d graph specifications was walked", len(jobs)))
+		}
+		// growth histories: every 1- and 2-node digraph class, the small families and every hand-listed family of
+		// at most 8 certificates, each grown in specification order and in reverse order
+		var grow []*pki.Spec
+		l1, _ := enumSmall(1, true, true, true)
+		l2, _ := enumSmall(2, true, true, true)
+		for i := range l1 {
+			grow = append(grow, l1[i].toSpec())
+		}
+		for i := range l2 {
+			grow = append(grow, l2[i].toSpec())
+		}
+		grow = append(grow, pki.SmallFamilies()...)
+		for _, s := range fams {
+			if len(s.Edges) <= 8 {
+				grow = append(grow, s)
+			}
+		}
+		c.Set("growth_histories", map[string]any{"specifications": len(grow), "orders": 2})
+		gdone := c.Parallel(2*len(grow), func(w, i int) {
+			if r.hung.Load() {
+				return
+			}
+			r.growth(unis[w], grow[i/2], i%2 == 1, hists[w])
+		})
+		if !gdone {
+			c.Incomplete("budget hit: only part of the growth histories was walked")
 		}
 		for _, h := range hists {
 			c.Merge(h)
